@@ -305,6 +305,37 @@ Definition time_check (c : cfg) (a : actor) : actor :=
           (a_metaset a ++ flat_map (tc_meta_adds c now) (a_svcs a))
           (a_range a) (a_now a).
 
+(** [NamingActor::time_check] with the per-round budget [once_time_check_size] (core.rs:694-723,
+    `if size >= self.sys_config.once_time_check_size { break; }`): the services are visited in the
+    iteration order of [service_map] ([order]: a HashMap order, hence a parameter; the harness
+    reports the real one); [size] accumulates [rlist.len() + ulist.len()]; the round stops AFTER
+    the service with which [size] reaches the budget [n] *)
+Definition tc_actions (c : cfg) (now : N) (s : service) : N :=
+  N.of_nat (length (snd (fst (tc_svc c now s))) + length (snd (tc_svc c now s))).
+
+Fixpoint tc_visited (c : cfg) (now n : N) (svcs : list (skey * service)) (order : list skey) (size : N) : list skey :=
+  match order with
+  | [] => []
+  | k :: r =>
+      match sget k svcs with
+      | Some s =>
+          let size' := size + tc_actions c now s in
+          k :: (if n <=? size' then [] else tc_visited c now n svcs r size')
+      | None => tc_visited c now n svcs r size
+      end
+  end.
+
+Definition kvis := @smem skey skey_eqd.
+
+Definition time_check_budget (c : cfg) (n : N) (order : list skey) (a : actor) : actor :=
+  let now := a_now a in
+  let vis := tc_visited c now n (a_svcs a) order 0 in
+  mkActor (map (fun e => (fst e, if kvis (fst e) vis then fst (fst (tc_svc c now (snd e))) else snd e)) (a_svcs a))
+          (a_clients a) (a_index a)
+          (a_empty a ++ flat_map (fun e => if kvis (fst e) vis then tc_empty_adds c now e else []) (a_svcs a))
+          (a_metaset a ++ flat_map (fun e => if kvis (fst e) vis then tc_meta_adds c now e else []) (a_svcs a))
+          (a_range a) (a_now a).
+
 (** [refresh_process_range] (core.rs:1145-1155) *)
 Definition refresh_process_range (hashf : skey -> N) (a : actor) (r : N * N) : actor :=
   mkActor (map (fun e => (fst e, if is_range r (hashf (fst e)) then svc_refresh (snd e) else snd e)) (a_svcs a))
